@@ -340,4 +340,43 @@ def _returns_before_mutation(g, start) -> bool:
     return True
 
 
-RULES = [rule_prov, rule_idemp]
+def rule_handle(ctx) -> RuleResult:
+    res = RuleResult(
+        "C09.HANDLE",
+        "C09",
+        "H5Writer.fetch_handle addresses exactly one node: an entity / type is resolved by its uid inside the container of its "
+        "kind; the project group is returned only for something that is not an entity or a type (the workspace), never on a "
+        "mere name match",
+        floor=3,
+    )
+    p = ctx.p
+    fh = p.func("H5Writer.fetch_handle")
+    ent = fh.params[2]
+    rets = [r for r in ast.walk(fh.node) if isinstance(r, ast.Return) and r.value is not None and unparse(r.value) != "None"]
+    if len(rets) < 2:
+        raise AnalysisError("H5Writer.fetch_handle: return statements not recognised")
+    for r in rets:
+        v = unparse(r.value)
+        chain_ = [i for i in ast.walk(fh.node) if isinstance(i, ast.If) and any(x is r for s_ in i.body for x in ast.walk(s_))]
+        guard = chain_[-1] if chain_ else None
+        gtxt = " and ".join(unparse(i.test) for i in chain_)
+        if "as_str_if_uuid(uid)" in v or "as_str_if_uuid(uid) in" in gtxt:
+            ok = any(isinstance(a, ast.Assign) and unparse(a.targets[0]) == "uid" and unparse(a.value) == f"{ent}.uid" for a in ast.walk(fh.node))
+            res.inst(f"fetch_handle:{r.lineno} returns {v[:40]} keyed by the entity's own uid", nontrivial=True, ok=ok)
+            if not ok:
+                res.find("H5Writer", "fetch_handle", f"returns {v[:40]} keyed by something else than {ent}.uid", f"{fh.module.relpath}:{r.lineno}",
+                         "writer functions act on another entity's node")
+        else:
+            excl = "isinstance" in gtxt and any(k in gtxt for k in ("Entity", "EntityType", "Workspace"))
+            res.inst(f"fetch_handle:{r.lineno} returns the project group under `{gtxt[:70]}`", nontrivial=True, ok=excl)
+            if not excl:
+                res.find("H5Writer", "fetch_handle", f"project group returned under `{gtxt[:60]}` (a name match, no kind test)", f"{fh.module.relpath}:{r.lineno}",
+                         "any entity or type whose name equals the project name is resolved to the PROJECT group: its attributes are written onto the "
+                         "project header and its own node is never updated")
+    hier = [d for d in ast.walk(fh.node) if isinstance(d, ast.Dict) and len(d.keys) >= 6]
+    ok = bool(hier)
+    res.inst("fetch_handle: kind -> container table present", ok=ok)
+    return res
+
+
+RULES = [rule_prov, rule_idemp, rule_handle]
